@@ -450,4 +450,36 @@ PROPS = {
         "quick": box(16, 500, 25, floor_evaluations=200, floor_shapes=20),
         "thorough": box(16, 16000, 480, floor_evaluations=2000, floor_shapes=40),
     },
+    "C11": {
+        "level": "fault_enumeration",
+        "technique": "runtime monitoring with crash injection: a child process runs a scripted "
+                     "Direct-mode history and is terminated (_exit, no unwinding, no flush) "
+                     "immediately before the n-th file-system effect (hook points at write, rename, "
+                     "create/open, symlink replace, each cleanup removal, gz create/open/copy/finish/"
+                     "remove) and by SIGKILL at random instants; acknowledged ids vs. files; then a "
+                     "second child restarts a logger on the same directory",
+        "level_text": "Held on the executions explored: for every crash point tried, every record "
+                      "whose log call had returned (ack written after the call) is in the files "
+                      "exactly once and in order (or removed as an oldest prefix by the cleanup "
+                      "limit); at most the in-flight record is additionally present (partial only "
+                      "after SIGKILL); a plain file and its .gz twin may coexist; the restarted "
+                      "logger exits 0 with an empty error channel and afterwards the directory holds "
+                      "(surviving earlier records) ++ (new records), nothing duplicated or reordered. "
+                      "Crash points of a history are enumerated exhaustively for half of the "
+                      "histories in the thorough tier, sampled (10 per history) in the quick tier.",
+        "level_note": "Trusted: the ack protocol (call/ack lines appended by the child around each "
+                      "log call), the hook placement 'immediately before each effect', the family "
+                      "parser. Synchronous cleanup (cleanup_in_background_thread(false)) makes the "
+                      "point numbering of a history deterministic. Kills inside a syscall are only "
+                      "sampled (SIGKILL); power loss is out of scope. The restarted child registers "
+                      "the virtual birth time of the files it finds (the table does not survive a "
+                      "process).",
+        "rule": "cases = seeded (configuration, history); per case: 1 trace run, then crash runs at "
+                "sampled or all fs points, each followed by a restart run, then SIGKILL runs; "
+                "non-trivial iff at least one crash run was judged; distinct = (driver level, naming, "
+                "cleanup, symlink, restart append); crash_points_executed lists the point kinds hit",
+        "assumptions": COMMON_ASSUMPTIONS + ["children: ~2 ms per spawn"],
+        "quick": box(16, 30, 25, floor_evaluations=40, floor_shapes=10, grace=240),
+        "thorough": box(16, 600, 480, floor_evaluations=200, floor_shapes=20, grace=600),
+    },
 }
